@@ -92,7 +92,7 @@ pub fn check_l2(vm: &mut VM, prog: &Program, layout: &Layout) -> (L2Verdict, Str
     let flat = flatten(prog);
     let image = data_image(&prog.data);
     let lines: Vec<usize> = vec![0; flat.ops.len()];
-    let cfg = RunCfg { interpreted: false, script: &[], lines: &lines, max_steps: 20_000, input_lines: None };
+    let cfg = RunCfg { interpreted: false, script: &[], lines: &lines, max_steps: 20_000, input_lines: None, buf_fill: None };
     let rr = ref_run(&flat, &image, &cfg, &Quirks::none());
     let mut asm = match assemble(&src) {
         Ok(a) => a,
@@ -255,7 +255,7 @@ fn eval_cli(c: &C8Case) -> CaseOutcome {
     let flat = flatten(&prog);
     let image = data_image(&prog.data);
     let lines: Vec<usize> = vec![0; flat.ops.len()];
-    let cfg = RunCfg { interpreted: false, script: &[], lines: &lines, max_steps: 20_000, input_lines: None };
+    let cfg = RunCfg { interpreted: false, script: &[], lines: &lines, max_steps: 20_000, input_lines: None, buf_fill: None };
     let rr = ref_run(&flat, &image, &cfg, &Quirks::none());
     let exp = crate::c17::blank_lines(&normalise(&rr.events));
     let out = run_cli(rendered.text.as_bytes(), Stdin::Closed, false, 1 << 20, 20_000);
